@@ -458,6 +458,7 @@ func runC05(r *core.Run) {
 		}
 	}
 	c05Multi(r)
+	c05MultiMasked(r)
 }
 
 // c05Tag recognises the precondition of the recorded reverse-iteration finding.
@@ -642,6 +643,112 @@ func c05Multi(r *core.Run) {
 				}
 				return nil
 			})
+		}
+	}
+}
+
+// c05MultiMasked: multi-iterators over pairs and triples of equal-shape tensors of which one, several or all carry a
+// mask (MultIteratorFromDense combines the masks when more than one operand is masked): the offsets delivered for
+// each tensor are still those of its own flat iterator, for exactly Size() positions.
+func c05MultiMasked(r *core.Run) {
+	shapes := [][]int{{3}, {2, 3}, {2, 2}, {2, 1, 2}}
+	if !isQuick(r) {
+		shapes = append(shapes, []int{3, 2}, []int{2, 2, 2}, []int{4})
+	}
+	lays := []string{"U", "C", "T", "Srow"}
+	r.SetBound("multi-masked", fmt.Sprintf("shapes %v x every ordered pair and triple of {unmasked contiguous U, masked C, masked lazily transposed T, masked row view Srow} x 2 mask patterns; forward sweep, Reset in the middle, full sweep, exhaustion", shapes))
+	for _, shape := range shapes {
+		n := ref.Prod(shape)
+		var tuples [][]string
+		for _, a := range lays {
+			for _, b := range lays {
+				tuples = append(tuples, []string{a, b})
+				for _, c := range lays {
+					tuples = append(tuples, []string{a, b, c})
+				}
+			}
+		}
+		for _, tu := range tuples {
+			for pat := 0; pat < 2; pat++ {
+				if !r.Take() {
+					continue
+				}
+				if r.Expired() {
+					return
+				}
+				id := fmt.Sprintf("C05|multi-masked|%s|%s|p%d", shapeStr(shape), strings.Join(tu, ","), pat)
+				if r.ReplayCase != "" && id != r.ReplayCase {
+					continue
+				}
+				tu, pat := tu, pat
+				r.Case(id, true, func() *core.Fail {
+					tensor.VerifResetPools()
+					var ts []tensor.DenseTensor
+					var sims []*itSim
+					nm := 0
+					for j, lay := range tu {
+						var t *tensor.Dense
+						var sim *itSim
+						if lay == "U" {
+							b, err := atlas.Build(ref.Float64, shape, rampVals(ref.Float64, n), "C")
+							if err != nil {
+								return nil
+							}
+							s, ok := simFor(b)
+							if !ok {
+								return nil
+							}
+							t, sim = b.T, s
+						} else {
+							mbits := 0x5 << uint(j)
+							if pat == 1 {
+								mbits = 0x33 >> uint(j)
+							}
+							t, sim = c05Masked(shape, lay, mbits)
+							if t == nil {
+								return nil
+							}
+							nm++
+						}
+						ts = append(ts, t)
+						sims = append(sims, sim)
+					}
+					var mi *tensor.MultIterator
+					o := call(func() error { mi = tensor.MultIteratorFromDense(ts...); return nil })
+					if o.Class != "ok" {
+						return core.F("unexpected-refusal", "mk", "MultIteratorFromDense(%v), %d masked: %s", tu, nm, o)
+					}
+					sweep := func(upto int, tag string) *core.Fail {
+						for p := 0; p < upto; p++ {
+							var err error
+							oc := call(func() error { _, err = mi.Next(); return nil })
+							r.Op(1)
+							if oc.Class != "ok" || err != nil {
+								return core.F("unexpected-refusal", tag, "multi-iterator over %v (%d masked operands) of shape %v: Next failed at position %d of %d: %v %v", tu, nm, shape, p, n, err, oc.Panic)
+							}
+							for j := range ts {
+								if got := mi.LastIndex(j); got != sims[j].offs[p] {
+									return core.F("wrong-value", fmt.Sprintf("%s-p%d-j%d", tag, p, j), "multi-iterator over %v (%d masked operands) of shape %v (%s): position %d tensor %d offset %d, its own flat iterator yields %d", tu, nm, shape, tag, p, j, got, sims[j].offs[p])
+								}
+							}
+						}
+						return nil
+					}
+					if f := sweep((n+1)/2, "first-half"); f != nil {
+						return f
+					}
+					mi.Reset()
+					if f := sweep(n, "after-reset"); f != nil {
+						return f
+					}
+					var err error
+					call(func() error { _, err = mi.Next(); return nil })
+					if err == nil {
+						return core.F("accepted-invalid", "exh", "multi-iterator %v yields more than %d positions", tu, n)
+					}
+					return nil
+				})
+			}
 		}
 	}
 }
